@@ -223,13 +223,13 @@ theorem runs_tga_rawRows {D : List UInt8} {dev : Dev} (i : Tga.Info) (st : Setti
     have : (n + 1) * (W * bpp) = n * (W * bpp) + W * bpp := by ring
     omega
 
-theorem recreate_ok (st : Settings) (W H : Nat) (hd : RgbDst st.dst) (hW : 1 ≤ W) (hH : 1 ≤ H)
-    (hsz : W * H * st.dst.nch ≤ 65536) :
+theorem recreate_ok (st : Settings) (W H : Nat) (hg : (st.dst == Dst.gray1) = false) (hn : 1 ≤ st.dst.nch)
+    (hW : 1 ≤ W) (hH : 1 ≤ H) (hsz : W * H * st.dst.nch ≤ 65536) :
     recreateImage st W H = pure (Dest.mk' W H st.dst.nch 0) := by
   unfold recreateImage
-  have hg : (st.dst == Dst.gray1) = false := by rcases hd with h | h <;> rw [h] <;> rfl
-  have hn : 1 ≤ st.dst.nch := by rcases hd with h | h <;> rw [h] <;> decide
-  have hwn : W * st.dst.nch ≤ 65536 := by nlinarith
+  have hwn : W * st.dst.nch ≤ 65536 := le_trans (by
+    have : W * st.dst.nch ≤ W * H * st.dst.nch := Nat.mul_le_mul_right _ (Nat.le_mul_of_pos_right W (by omega))
+    exact this) hsz
   have hW2 : W ≤ 65536 := le_trans (Nat.le_mul_of_pos_right W (by omega)) hwn
   have hH2 : H ≤ 65536 :=
     le_trans (le_trans (Nat.le_mul_of_pos_left H (by omega)) (Nat.le_mul_of_pos_right (W * H) (by omega))) hsz
@@ -239,12 +239,16 @@ theorem recreate_ok (st : Settings) (W H : Nat) (hd : RgbDst st.dst) (hW : 1 ≤
   have e1 : wrapU 64 (W : Int) = W := wrapU64_small (by omega) (by omega)
   have e2 : wrapU 64 (H : Int) = H := wrapU64_small (by omega) (by omega)
   have e3 : wrapU 64 ((W : Int) * (st.dst.nch : Nat)) = ((W * st.dst.nch : Nat) : Int) := by
-    rw [wrapU64_small] <;> push_cast <;> nlinarith
+    have : (W : Int) * (st.dst.nch : Nat) = ((W * st.dst.nch : Nat) : Int) := by push_cast; rfl
+    rw [this, wrapU64_small] <;> omega
   have e4 : wrapU 64 (((W * st.dst.nch : Nat) : Int) * (H : Int)) = ((W * H * st.dst.nch : Nat) : Int) := by
     have : ((W * st.dst.nch : Nat) : Int) * (H : Int) = ((W * H * st.dst.nch : Nat) : Int) := by push_cast; ring
     rw [this, wrapU64_small] <;> omega
   rw [e1, e2, e3, e4, alloc_ok (by omega)]
   rfl
+
+theorem rgbDst_gray1 {dst : Dst} (hd : RgbDst dst) : (dst == Dst.gray1) = false ∧ 1 ≤ dst.nch := by
+  rcases hd with h | h <;> rw [h] <;> exact ⟨rfl, by decide⟩
 
 theorem runs_tga_readData {D : List UInt8} {dev : Dev} {body r : List UInt8} {s : St} (i : Tga.Info) (st : Settings)
     (W H nch : Nat) (d : Dest) (hoff : i.offset = 18) (hw : i.width = W) (hh : i.height = H) (hbpp : i.bpp = (nch * 8 : Nat))
@@ -300,7 +304,7 @@ theorem runs_tga_run_image {D : List UInt8} {dev : Dev} {body : List UInt8} {s :
   simp only [hdw, hdh, hw, hh, beq_self_eq_true, if_true]
   rw [checkSettings_full st W H hx hy (by omega) (by omega)]
   simp only [pure_bind, he]
-  rw [recreate_ok st W H hd hW hH (by rw [hnch]; exact hsz)]
+  rw [recreate_ok st W H (rgbDst_gray1 hd).1 (rgbDst_gray1 hd).2 hW hH (by rw [hnch]; exact hsz)]
   simp only [pure_bind]
   refine runs_bind (Q := fun _ s' => ∃ r', Live D dev r' s') ?_ ?_
   · unfold Tga.apply
@@ -545,7 +549,7 @@ theorem runs_bmp_run_image {D : List UInt8} {dev : Dev} {body : List UInt8} {s :
     simp only [hdw, hdh, hw, hh, beq_self_eq_true, if_true]
     rw [checkSettings_full st W H hx hy (by omega) (by omega)]
     simp only [pure_bind, he]
-    rw [recreate_ok st W H hd hW hH (by rw [hnch]; exact hsz)]
+    rw [recreate_ok st W H (rgbDst_gray1 hd).1 (rgbDst_gray1 hd).2 hW hH (by rw [hnch]; exact hsz)]
     simp only [pure_bind]
     refine runs_bind (Q := fun _ s' => ∃ r', Live D dev r' s') ?_ ?_
     · exact runs_bmp_apply_data i st W H nch _ he hoff hw hh hbpp hdst hx hy hW hH hsz (by omega) (mk'_shape _ _ _ _) h1
@@ -563,5 +567,323 @@ theorem bmp_body_length {α} (f : Codec.PixFmt α) (henc : ∀ p, (f.enc p).leng
     rw [List.length_append, List.length_replicate, encRow_length f henc, hr']
     unfold Codec.bmpSpn
     omega
+
+/-! ## PNM: `encodePnm` output (P5 / P6) is read back -/
+
+/-- one step of `read_int`: `val = val * 10 + (ch - '0')` -/
+def dstep (v d : Nat) : Nat := v * 10 + (d - 48)
+
+theorem foldl_dstep_ge (l : List Nat) : ∀ v : Nat, v ≤ l.foldl dstep v := by
+  induction l with
+  | nil => intro v; exact le_refl _
+  | cons a t ih =>
+    intro v
+    have := ih (dstep v a)
+    simp only [List.foldl_cons]
+    unfold dstep at this ⊢
+    omega
+
+def IsDig (b : UInt8) : Prop := 48 ≤ b.toNat ∧ b.toNat ≤ 57
+
+theorem isDig_isDigit {b : UInt8} (h : IsDig b) : Pnm.isDigit b.toNat = true := by
+  unfold Pnm.isDigit; simp [h.1, h.2]
+
+theorem runs_fuelHere (s : St) : Runs fuelHere s (fun k s' => k = s.rest.length + 1 ∧ s' = s) :=
+  ⟨_, _, rfl, rfl, rfl⟩
+
+theorem runs_getcChecked {D : List UInt8} {dev : Dev} {a : UInt8} {r : List UInt8} {s : St} (h : Live D dev (a :: r) s) :
+    Runs getcChecked s (fun v s' => v = a.toNat ∧ Live D dev r s') := by
+  unfold getcChecked
+  refine runs_bind (runs_readSome 1 h (by decide) (by simp)) ?_
+  rintro got s1 ⟨rfl, h1⟩
+  exact runs_pure _ _ ⟨rfl, h1⟩
+
+theorem runs_pnm_readChar {D : List UInt8} {dev : Dev} {a : UInt8} {r : List UInt8} {s : St} (h : Live D dev (a :: r) s)
+    (ha : a.toNat ≠ 35) : Runs Pnm.readChar s (fun v s' => v = a.toNat ∧ Live D dev r s') := by
+  unfold Pnm.readChar
+  rstep runs_getcChecked h with h1
+  rw [if_neg (by simpa using ha)]
+  exact runs_pure _ _ ⟨rfl, h1⟩
+
+theorem runs_pnm_digitsLoop {D : List UInt8} {dev : Dev} (t : UInt8) (ht : Pnm.isDigit t.toNat = false) (ht2 : t.toNat ≠ 35)
+    (r : List UInt8) :
+    ∀ (cs : List UInt8) (c : UInt8) (val k : Nat) (s : St), (∀ b ∈ c :: cs, IsDig b) → cs.length < k →
+      ((c :: cs).map UInt8.toNat).foldl dstep val ≤ 214748364 → Live D dev (cs ++ t :: r) s →
+      Runs (Pnm.digitsLoop k c.toNat val) s
+        (fun v s' => v = Int.ofNat (((c :: cs).map UInt8.toNat).foldl dstep val) ∧ Live D dev r s')
+  | cs, c, val, 0, s, _, hk, _, _ => by omega
+  | [], c, val, k + 1, s, hdig, hk, hval, hl => by
+    unfold Pnm.digitsLoop
+    simp only [List.map_cons, List.map_nil, List.foldl_cons, List.foldl_nil] at hval ⊢
+    unfold dstep at hval
+    rw [if_neg (by omega)]
+    rstep runs_pnm_readChar hl ht2 with h1
+    rw [ht]
+    exact runs_pure _ _ ⟨rfl, h1⟩
+  | c' :: cs, c, val, k + 1, s, hdig, hk, hval, hl => by
+    unfold Pnm.digitsLoop
+    have hge := foldl_dstep_ge ((c' :: cs).map UInt8.toNat) (dstep val c.toNat)
+    simp only [List.map_cons, List.foldl_cons] at hval hge ⊢
+    have hd1 : dstep val c.toNat = val * 10 + (c.toNat - 48) := rfl
+    rw [if_neg (by omega)]
+    have hc' : IsDig c' := hdig c' (by simp)
+    rstep runs_pnm_readChar hl (by have := hc'.1; omega) with h1
+    rw [isDig_isDigit hc']
+    simp only [if_true]
+    have := runs_pnm_digitsLoop t ht ht2 r cs c' (val * 10 + (c.toNat - 48)) k _
+      (fun b hb => hdig b (by simp at hb ⊢; right; exact hb)) (by simpa using hk)
+      (by simpa [List.map_cons, List.foldl_cons, hd1] using hval) h1
+    simpa [List.map_cons, List.foldl_cons, hd1] using this
+
+theorem runs_pnm_skipWs {D : List UInt8} {dev : Dev} (c : UInt8) (hc : IsDig c) (r : List UInt8) :
+    ∀ (ws : List UInt8) (k : Nat) (s : St), (∀ b ∈ ws, b = 32) → ws.length < k → Live D dev (ws ++ c :: r) s →
+      Runs (Pnm.skipWs k) s (fun v s' => v = c.toNat ∧ Live D dev r s')
+  | ws, 0, s, _, hk, _ => by omega
+  | [], k + 1, s, _, _, hl => by
+    unfold Pnm.skipWs
+    rstep runs_pnm_readChar hl (by have := hc.1; omega) with h1
+    rw [if_neg (by have := hc.1; have := hc.2; simp; omega)]
+    exact runs_pure _ _ ⟨rfl, h1⟩
+  | w :: ws, k + 1, s, hws, hk, hl => by
+    unfold Pnm.skipWs
+    have hw : w = 32 := hws w (by simp)
+    subst hw
+    rstep runs_pnm_readChar hl (by decide) with h1
+    rw [if_pos (by left; decide)]
+    exact runs_pnm_skipWs c hc r ws k _ (fun b hb => hws b (by simp [hb])) (by simpa using hk) h1
+
+/-- `read_int` over optional blanks, a digit string and the blank that ends it -/
+theorem runs_pnm_readInt {D : List UInt8} {dev : Dev} {s : St} (ws ds r : List UInt8) (hws : ∀ b ∈ ws, b = 32)
+    (hne : ds ≠ []) (hdig : ∀ b ∈ ds, IsDig b) (hval : (ds.map UInt8.toNat).foldl dstep 0 ≤ 214748364)
+    (hl : Live D dev (ws ++ (ds ++ 32 :: r)) s) :
+    Runs Pnm.readInt s (fun v s' => v = Int.ofNat ((ds.map UInt8.toNat).foldl dstep 0) ∧ Live D dev r s') := by
+  obtain ⟨c, cs, rfl⟩ := List.exists_cons_of_ne_nil hne
+  unfold Pnm.readInt
+  refine runs_bind (runs_fuelHere s) ?_
+  rintro k s0 ⟨hk, hs⟩
+  rw [hk, hs]
+  have hc : IsDig c := hdig c (by simp)
+  refine runs_bind (runs_pnm_skipWs c hc (cs ++ 32 :: r) ws _ s hws (by rw [hl.rest]; simp; omega) (by simpa using hl)) ?_
+  rintro _ s1 ⟨rfl, h1⟩
+  rw [isDig_isDigit hc]
+  simp only [Bool.not_true, Bool.false_eq_true, if_false]
+  refine runs_bind (runs_fuelHere s1) ?_
+  rintro k s2 ⟨hk, hs⟩
+  rw [hk, hs]
+  exact runs_pnm_digitsLoop 32 (by decide) (by decide) r cs c 0 _ s1 hdig (by rw [h1.rest]; simp; omega) hval h1
+
+theorem toNat_ofNat_small (x : Nat) (h : x < 256) : (UInt8.ofNat x).toNat = x := by
+  simp [UInt8.toNat_ofNat']; omega
+
+theorem decDigitsAux_spec : ∀ (fuel n : Nat), n < fuel →
+    Codec.decDigitsAux fuel n ≠ [] ∧ (∀ b ∈ Codec.decDigitsAux fuel n, IsDig b) ∧
+      ((Codec.decDigitsAux fuel n).map UInt8.toNat).foldl dstep 0 = n
+  | 0, n, h => by omega
+  | fuel + 1, n, h => by
+    unfold Codec.decDigitsAux
+    by_cases h10 : n < 10
+    · rw [if_pos h10]
+      have e := toNat_ofNat_small (48 + n) (by omega)
+      refine ⟨by simp, ?_, ?_⟩
+      · intro b hb
+        simp only [List.mem_singleton] at hb
+        subst hb
+        unfold IsDig; rw [e]; omega
+      · simp only [List.map_cons, List.map_nil, List.foldl_cons, List.foldl_nil, e]
+        unfold dstep; omega
+    · rw [if_neg h10]
+      obtain ⟨_, ih2, ih3⟩ := decDigitsAux_spec fuel (n / 10) (by omega)
+      have e := toNat_ofNat_small (48 + n % 10) (by omega)
+      refine ⟨by simp, ?_, ?_⟩
+      · intro b hb
+        rcases List.mem_append.mp hb with hb | hb
+        · exact ih2 b hb
+        · simp only [List.mem_singleton] at hb
+          subst hb
+          unfold IsDig; rw [e]; omega
+      · rw [List.map_append, List.foldl_append, ih3]
+        simp only [List.map_cons, List.map_nil, List.foldl_cons, List.foldl_nil, e]
+        unfold dstep; omega
+
+theorem decDigits_spec (n : Nat) : Codec.decDigits n ≠ [] ∧ (∀ b ∈ Codec.decDigits n, IsDig b) ∧
+    ((Codec.decDigits n).map UInt8.toNat).foldl dstep 0 = n :=
+  decDigitsAux_spec (n + 1) n (by omega)
+
+theorem runs_pnm_readHeader {D : List UInt8} {dev : Dev} {body : List UInt8} {s : St} (t W H : Nat) (ht : t = 5 ∨ t = 6)
+    (hW : 1 ≤ W) (hW' : W ≤ 214748364) (hH : 1 ≤ H) (hH' : H ≤ 214748364)
+    (h : Live D dev (Codec.pnmHeader t W H ++ body) s) :
+    Runs Pnm.readHeader s (fun i s' => i.type = (t : Int) ∧ i.width = (W : Int) ∧ i.height = (H : Int) ∧ i.maxValue = 255 ∧
+      Live D dev body s') := by
+  obtain ⟨w1, w2, w3⟩ := decDigits_spec W
+  obtain ⟨h1, h2, h3⟩ := decDigits_spec H
+  unfold Codec.pnmHeader at h
+  rw [if_neg (by rcases ht with rfl | rfl <;> decide)] at h
+  simp only [List.append_assoc, List.cons_append, List.nil_append] at h
+  unfold Pnm.readHeader
+  rstep runs_pnm_readChar h (by decide) with h
+  rw [if_neg (by decide)]
+  rstep runs_pnm_readChar h (by rcases ht with rfl | rfl <;> decide) with h
+  rw [if_neg (by rcases ht with rfl | rfl <;> decide)]
+  rstep runs_pnm_readInt [32] (Codec.decDigits W) _ (by simp) w1 w2 (by rw [w3]; exact hW') h with h
+  rstep runs_pnm_readInt [] (Codec.decDigits H) _ (by simp) h1 h2 (by rw [h3]; exact hH') h with h
+  rw [w3, h3]
+  rw [if_neg (by simp only [Int.ofNat_eq_natCast]; omega)]
+  rw [if_neg (by rcases ht with rfl | rfl <;> decide)]
+  rstep runs_pnm_readInt [] [50, 53, 53] body (by simp) (by simp)
+    (by intro b hb; simp at hb; rcases hb with rfl | rfl | rfl <;> exact ⟨by decide, by decide⟩) (by decide) h with h
+  rw [if_neg (by decide)]
+  refine runs_pure _ _ ⟨?_, rfl, rfl, by show Int.ofNat _ = 255; decide, h⟩
+  show Int.ofNat _ = _
+  rcases ht with rfl | rfl <;> decide
+
+theorem runs_pnm_binRows {D : List UInt8} {dev : Dev} (i : Pnm.Info) (st : Settings) (W H ch : Nat) (site : String)
+    (hty : (i.type = 5 ∧ ch = 1 ∧ st.dst = .gray8) ∨ (i.type = 6 ∧ ch = 3 ∧ st.dst = .rgb8)) (hx : st.x0 = 0) (hW : 1 ≤ W) :
+    ∀ (n y : Nat) (buf : List Nat) (d : Dest) (r : List UInt8) (s : St), y + n = H → buf.length = W * ch →
+      Shape d W H st.dst.nch → n * (W * ch) ≤ r.length → Live D dev r s →
+      Runs (Pnm.binRows i st W (W * ch) site n y buf d) s (fun _ s' => ∃ r', Live D dev r' s')
+  | 0, y, buf, d, r, s, _, _, _, _, hl => by
+    unfold Pnm.binRows
+    exact runs_pure _ _ ⟨r, hl⟩
+  | n + 1, y, buf, d, r, s, hy, hbuf, hsh, hr, hl => by
+    unfold Pnm.binRows
+    have hpos : 0 < W * ch := by rcases hty with ⟨_, rfl, _⟩ | ⟨_, rfl, _⟩ <;> omega
+    have hr' : W * ch ≤ r.length := by
+      have : (n + 1) * (W * ch) = n * (W * ch) + W * ch := by ring
+      omega
+    refine runs_bind (runs_readInto site buf (W * ch) hl hpos hbuf.symm hr') ?_
+    rintro buf' s1 ⟨rfl, h1⟩
+    have hlen : (List.map UInt8.toNat (List.take (W * ch) r)).length = W * ch := by
+      simp only [List.length_map, List.length_take]; omega
+    have hrest : n * (W * ch) ≤ (List.drop (W * ch) r).length := by
+      rw [List.length_drop]
+      have : (n + 1) * (W * ch) = n * (W * ch) + W * ch := by ring
+      omega
+    have hy2 : (y : Int) + 1 = ((y + 1 : Nat) : Int) := by push_cast; rfl
+    have hWpos : ¬ ((W : Int) ≤ 0) := by omega
+    rcases hty with ⟨h5, rfl, hdst⟩ | ⟨h6, rfl, hdst⟩
+    · have hnch : st.dst.nch = 1 := by rw [hdst]; rfl
+      rw [h5, hx]
+      simp only [show ((5 : Int) == 4) = false from rfl, show ((5 : Int) == 6) = false from rfl, Bool.false_eq_true, if_false]
+      rw [if_neg hWpos, if_neg (by simp only [Int.ofNat_eq_natCast]; omega)]
+      simp only [beq_self_eq_true, if_true]
+      have hfit : ((Pnm.gray8To st.dst (List.take ((W : Int).toNat * 1) (List.drop ((0 : Int).toNat * 1)
+          (List.map UInt8.toNat (List.take (W * 1) r) ++ List.replicate (W * 1 * 1 - W * 1) 0)))).length : Int)
+          ≤ (W : Int) * st.dst.nch := by
+        rw [hdst]
+        show ((List.take _ _).length : Int) ≤ _
+        rw [List.length_take]
+        simp only [Int.toNat_natCast]
+        show _ ≤ (W : Int) * ((1 : Nat) : Int)
+        omega
+      obtain ⟨d', hset, hsh'⟩ := setRow_ok site d (y : Int) _ hsh (by omega) (by omega) hfit
+      rw [hset]
+      simp only [pure_bind]
+      rw [hy2]
+      have hrec := runs_pnm_binRows i st W H 1 site (Or.inl ⟨h5, rfl, hdst⟩) hx hW n (y + 1) _ d' _ s1 (by omega) hlen hsh' hrest h1
+      exact hrec
+    · have hnch : st.dst.nch = 3 := by rw [hdst]; rfl
+      rw [h6, hx]
+      simp only [show ((6 : Int) == 4) = false from rfl, beq_self_eq_true, Bool.false_eq_true, if_false, if_true]
+      rw [if_neg hWpos, if_neg (by simp only [Int.ofNat_eq_natCast]; push_cast; rintro (hf | hf) <;> omega)]
+      simp only [show ((3 : Nat) == 1) = false from rfl, Bool.false_eq_true, if_false]
+      have hfit : (((List.take ((W : Int).toNat * 3) (List.drop ((0 : Int).toNat * 3)
+          (List.map UInt8.toNat (List.take (W * 3) r) ++ List.replicate (W * 3 * 3 - W * 3) 0)))).length : Int)
+          ≤ (W : Int) * st.dst.nch := by
+        rw [hnch, List.length_take]
+        simp only [Int.toNat_natCast]
+        push_cast
+        omega
+      obtain ⟨d', hset, hsh'⟩ := setRow_ok site d (y : Int) _ hsh (by omega) (by omega) hfit
+      rw [hset]
+      simp only [pure_bind]
+      rw [hy2]
+      have hrec := runs_pnm_binRows i st W H 3 site (Or.inr ⟨h6, rfl, hdst⟩) hx hW n (y + 1) _ d' _ s1 (by omega) hlen hsh' hrest h1
+      exact hrec
+
+theorem runs_pnm_apply_bin {D : List UInt8} {dev : Dev} {r : List UInt8} {s : St} (i : Pnm.Info) (st : Settings)
+    (W H ch : Nat) (d : Dest) (he : st.entry = .image)
+    (hty : (i.type = 5 ∧ ch = 1 ∧ st.dst = .gray8) ∨ (i.type = 6 ∧ ch = 3 ∧ st.dst = .rgb8)) (hw : i.width = W)
+    (hx : st.x0 = 0) (hy : st.y0 = 0) (hW : 1 ≤ W) (hH : 1 ≤ H) (halloc : W * ch * ch ≤ 65536)
+    (hr : H * (W * ch) ≤ r.length) (hsh : Shape d W H st.dst.nch) (hl : Live D dev r s) :
+    Runs (Pnm.apply i st W d) s (fun _ s' => ∃ r', Live D dev r' s') := by
+  have hvh : d.vh = H := hsh.2.1
+  have key : ∀ (sl : Int), sl = ((W * ch : Nat) : Int) →
+      Runs (Pnm.readBinData i st W sl d) s (fun _ s' => ∃ r', Live D dev r' s') := by
+    intro sl hsl
+    unfold Pnm.readBinData
+    have hch : (if (i.type == 6) = true then (3 : Int) else 1) = (ch : Int) := by
+      rcases hty with ⟨h5, rfl, _⟩ | ⟨h6, rfl, _⟩
+      · rw [h5]; rfl
+      · rw [h6]; rfl
+    have hpos : 0 < W * ch := by rcases hty with ⟨_, rfl, _⟩ | ⟨_, rfl, _⟩ <;> omega
+    rw [hch, hsl]
+    dsimp only
+    rw [alloc_ok (n := ((W * ch : Nat) : Int) * (ch : Int)) (by
+      have : ((W * ch : Nat) : Int) * (ch : Int) = ((W * ch * ch : Nat) : Int) := by push_cast; rfl
+      rw [this]; omega)]
+    simp only [pure_bind, hy, hvh]
+    rw [if_neg (by simp; omega), if_neg (by simp; omega)]
+    simp only [lt_self_iff_false, if_false, Int.toNat_natCast]
+    rw [if_pos (by omega)]
+    unfold Pnm.skipBinRows
+    simp only [pure_bind]
+    exact runs_pnm_binRows i st W H ch _ hty hx hW H 0 _ d r s (by omega) (by simp) hsh hr hl
+  unfold Pnm.apply
+  have hal : Pnm.isAllowed i st = true := by
+    unfold Pnm.isAllowed
+    rw [he]
+    rcases hty with ⟨h5, _, hdst⟩ | ⟨h6, _, hdst⟩
+    · rw [h5, hdst]; rfl
+    · rw [h6, hdst]; rfl
+  rw [hal]
+  simp only [Bool.not_true, Bool.false_eq_true, if_false]
+  rcases hty with ⟨h5, hc, hdst⟩ | ⟨h6, hc, hdst⟩
+  · rw [if_neg (by rw [h5]; decide), if_neg (by rw [h5]; decide), if_neg (by rw [h5]; decide), if_pos (by rw [h5]; decide)]
+    exact key _ (by rw [hw, hc]; push_cast; omega)
+  · rw [if_neg (by rw [h6]; decide), if_neg (by rw [h6]; decide), if_neg (by rw [h6]; decide), if_neg (by rw [h6]; decide)]
+    exact key _ (by rw [hw, hc]; push_cast; rfl)
+
+theorem runs_pnm_run_image {D : List UInt8} {dev : Dev} {body : List UInt8} {s : St} (st : Settings) (t W H ch : Nat)
+    (he : st.entry = .image) (hty : (t = 5 ∧ ch = 1 ∧ st.dst = .gray8) ∨ (t = 6 ∧ ch = 3 ∧ st.dst = .rgb8))
+    (hx : st.x0 = 0) (hy : st.y0 = 0) (hdw : st.dw = 0) (hdh : st.dh = 0)
+    (hW : 1 ≤ W) (hH : 1 ≤ H) (hsz : W * H * ch ≤ 65536) (halloc : W * ch * ch ≤ 65536)
+    (hD : D = Codec.pnmHeader t W H ++ body) (hbody : W * H * ch ≤ body.length) (hl : Live D dev D s) :
+    Runs (Pnm.run st) s (fun _ s' => s'.taint = none) := by
+  have ht : t = 5 ∨ t = 6 := by rcases hty with h | h <;> simp [h.1]
+  have hch : 1 ≤ ch := by rcases hty with h | h <;> simp [h.2.1]
+  have hnch : st.dst.nch = ch := by rcases hty with ⟨_, h1, h2⟩ | ⟨_, h1, h2⟩ <;> rw [h1, h2] <;> rfl
+  have hg : (st.dst == Dst.gray1) = false := by rcases hty with ⟨_, _, h2⟩ | ⟨_, _, h2⟩ <;> rw [h2] <;> rfl
+  have hwn : W * ch ≤ 65536 := le_trans (by
+    have : W * ch ≤ W * H * ch := Nat.mul_le_mul_right ch (Nat.le_mul_of_pos_right W (by omega))
+    exact this) hsz
+  have hW2 : W ≤ 65536 := le_trans (Nat.le_mul_of_pos_right W (by omega)) hwn
+  have hH2 : H ≤ 65536 :=
+    le_trans (le_trans (Nat.le_mul_of_pos_left H (by omega)) (Nat.le_mul_of_pos_right (W * H) (by omega))) hsz
+  unfold Pnm.run
+  rw [hD] at hl
+  refine runs_bind (runs_pnm_readHeader t W H ht hW (by omega) hH (by omega) hl) ?_
+  rintro i s1 ⟨hit, hw, hh, hmax, h1⟩
+  rw [← hD] at h1
+  simp only [hdw, hdh, hw, hh, beq_self_eq_true, if_true]
+  rw [checkSettings_full st W H hx hy (by omega) (by omega)]
+  simp only [pure_bind, he]
+  rw [recreate_ok st W H hg (by omega) hW hH (by rw [hnch]; exact hsz)]
+  simp only [pure_bind]
+  refine runs_bind (Q := fun _ s' => ∃ r', Live D dev r' s') ?_ ?_
+  · refine runs_pnm_apply_bin i st W H ch _ he ?_ hw hx hy hW hH halloc ?_ (mk'_shape _ _ _ _) h1
+    · rcases hty with ⟨rfl, h1, h2⟩ | ⟨rfl, h1, h2⟩
+      · left; exact ⟨hit, h1, h2⟩
+      · right; exact ⟨hit, h1, h2⟩
+    · have : H * (W * ch) = W * H * ch := by ring
+      omega
+  · rintro d s2 ⟨r', h2⟩
+    exact runs_pure _ _ h2.taint
+
+theorem pnm_body_length {α} (f : Codec.PixFmt α) (henc : ∀ p, (f.enc p).length = f.size) (img : Codec.Img α)
+    (hwf : img.WF) : ((img.rows.map (Codec.encRow f)).flatten).length = img.w * img.h * f.size := by
+  rw [flatten_map_length (Codec.encRow f) (img.w * f.size)]
+  · rw [hwf.1]; ring
+  · intro r hr
+    rw [encRow_length f henc, hwf.2 r hr]
 
 end GilVerif.Lemmas.C11
